@@ -20,7 +20,7 @@ Subs     == {<<>>, <<"A">>, <<"b", "uu">>, <<"Q", "R", "S">>}
 Msgs     == {"plain", "uni", "markup", "spaces", "long"}
 Details  == {"none", "flat", "nested", "multi", "unikey"}
 Excs     == {"ValueError", "KeyError", "Hostile", "Chained", "SecretType", "BaseFaultLike"}
-Methods  == {"f", "g"}
+Methods  == {"f", "g", "gen"}       \* gen: a generator function that raises before its first yield
 
 \* detail trees: <<"map", <<k1, v1>>, ...>> sorted by key, leaves <<"s", <<text id>>>>
 Leaf(t)  == <<"s", <<t>>>>
@@ -38,13 +38,15 @@ Dedicated == { [cls |-> "toolong",    code |-> <<"Client", "RequestTooLong">>],
 
 Faults ==
   \* plain Fault objects and generated subclasses with an arbitrary dotted code
-  { [kind |-> "fault", cls |-> c, code |-> <<a>> \o s, msg |-> m, detail |-> d] :
+  { [kind |-> "fault", cls |-> c, code |-> <<a>> \o s, msg |-> m, detail |-> d, sub |-> FALSE] :
       c \in {"fault", "subclass"}, a \in First, s \in Subs, m \in Msgs, d \in Details }
   \cup
   \* the dedicated error classes (fixed code; message chosen by the class or the caller)
-  { [kind |-> "fault", cls |-> x.cls, code |-> x.code, msg |-> "class", detail |-> "none"] : x \in Dedicated }
+  \* sub: the raised object is an instance of a proper SUBCLASS of the dedicated error class
+  { [kind |-> "fault", cls |-> x.cls, code |-> x.code, msg |-> "class", detail |-> "none", sub |-> b] :
+      x \in Dedicated, b \in BOOLEAN }
   \cup
-  { [kind |-> "exc", cls |-> e, code |-> <<>>, msg |-> "secret", detail |-> "none"] : e \in Excs }
+  { [kind |-> "exc", cls |-> e, code |-> <<>>, msg |-> "secret", detail |-> "none", sub |-> FALSE] : e \in Excs }
 
 \* pairwise rather than the full product: vary (code x msg) with detail fixed, and
 \* (code x detail) with msg fixed
@@ -54,7 +56,7 @@ Pairwise(f) == f.kind # "fault" \/ f.cls \notin {"fault", "subclass"}
 Cases == { c \in [fam : OutFams, meth : Methods, f : {f \in Faults : Pairwise(f)}] :
              \* the SOAP 1.2 fault vocabulary is closed (property-stated exclusion)
              /\ (c.fam = "soap12" /\ c.f.kind = "fault" => c.f.code[1] \in {"Client", "Server"})
-             /\ (c.meth = "g" => (c.f.msg \in {"plain", "secret", "class"} /\ c.f.detail \in {"none", "multi"})) }
+             /\ (c.meth \in {"g", "gen"} => (c.f.msg \in {"plain", "secret", "class"} /\ c.f.detail \in {"none", "multi"})) }
 
 \* ------------------------------------------------------------------ expected
 Expected(c) ==
